@@ -164,6 +164,8 @@ class ActionsFamily:
         """two or three actions issued back to back WITHOUT waiting for quiescence: the work scheduled by the first
         (successor tasks still in the queue, messages not yet dispatched) is in flight when the next one arrives;
         deterministic on a current-thread runtime"""
+        if rng.random() < opts.get('tail', 0.25):
+            return self.gen_b2b_tail(rng, idx, opts)
         kind, wf = models(rng)
         ops = [{'op': 'start', 'mid': 'm1', 'vars': {'pid': 'p1'}}, {'op': 'quiesce'}]
         for _ in range(rng.randint(1, 3)):
@@ -171,12 +173,57 @@ class ActionsFamily:
                 action = rng.choice(['next', 'next', 'abort', 'skip', 'error', 'submit', 'remove', 'back', 'push'])
                 tgt = {'pid': 'p1', 'kind': 'act', 'state': 'interrupted', 'occ': rng.choice([0, 0, 1, -1])} if action != 'push' else {'pid': 'p1', 'kind': 'step', 'state': 'running', 'occ': rng.choice([0, -1])}
                 ops.append({'op': 'act', 'target': tgt, 'action': action, 'options': options_for(rng, action, wf, 0.9)})
+                if rng.random() < 0.4:
+                    # the scheduler takes a few turns (not all it needs) before the next action arrives
+                    ops.append({'op': 'yield', 'n': rng.randint(1, 6)})
             ops += [{'op': 'quiesce'}, {'op': 'snapshot', 'level': 'rows'}]
         ops += [{'op': 'run'}, {'op': 'snapshot', 'level': 'rows'}]
         rt = rng.choice([{'flavor': 'current'}, {'flavor': 'current'}, {'flavor': 'current', 'chaos': {'max_yields': 3, 'seed': rng.randrange(1, 1 << 40)}}, {'flavor': 'multi', 'workers': 2, 'chaos': {'max_yields': 2, 'seed': rng.randrange(1, 1 << 40)}}])
         sc = {'id': '', 'family': 'actions', 'sched': 'b2b-' + rt['flavor'], 'seed': rng.randrange(1 << 30), 'runtime': rt, 'engine': {'store': 'mem', 'keep_processes': True},
               'models': [json.dumps(wf)], 'responder': {'mode': 'quiescent', 'rules': [{'match': {'uses': IRQ}, 'action': 'next', 'times': 100}]}, 'ops': ops}
         return {'scenarios': [sc], 'meta': {'wf': wf, 'kind': kind, 'sub': 'b2b'}, 'digest': digest([wf, ops]), 'nontrivial': True}
+
+    def gen_b2b_tail(self, rng, idx, opts):
+        """the action that completes a step (its successor step goes into the queue) is followed at once by an action
+        on an act that is still open below that step (an act pushed into it at run time)"""
+        if rng.random() < 0.5:
+            # an action in one branch makes a later step of that branch create its own branches; a few scheduler turns
+            # later (those branch tasks exist but have not been initialized) an action arrives in the other branch
+            inner = {'id': 's12', 'branches': [{'id': 'b121', 'if': 'true', 'steps': [{'id': 's1211', 'acts': [irq('a6', 'k6')]}]}, {'id': 'b122', 'if': rng.choice(['true', 'false']), 'steps': [{'id': 's1221', 'acts': [irq('a7', 'k7')]}]}]}
+            if rng.random() < 0.3:
+                inner['branches'].append({'id': 'b123', 'else': True, 'steps': [{'id': 's1231', 'acts': [irq('a8', 'k8')]}]})
+            wf = {'id': 'm1', 'steps': [{'id': 's1', 'branches': [{'id': 'b1', 'if': 'true', 'steps': [{'id': 's11', 'acts': [irq('a1', 'k1')]}, inner]}, {'id': 'b2', 'if': 'true', 'steps': [{'id': 's21', 'acts': [irq('a3', 'k3')]}]}]},
+                                        {'id': 's2', 'acts': [irq('a4', 'k4')]}]}
+            action = rng.choice(['abort', 'abort', 'back', 'skip', 'error', 'remove', 'next', 'cancel'])
+            options = {'to': rng.choice(['s1', 's21'])} if action == 'back' else options_for(rng, action, wf, 0.9)
+            ops = [{'op': 'start', 'mid': 'm1', 'vars': {'pid': 'p1'}}, {'op': 'quiesce'},
+                   {'op': 'act', 'target': {'pid': 'p1', 'key': 'k1', 'state': 'interrupted'}, 'action': rng.choice(['next', 'next', 'skip', 'submit']), 'options': {}},
+                   {'op': 'yield', 'n': rng.randint(0, 8)},
+                   {'op': 'act', 'target': {'pid': 'p1', 'key': 'k3', 'state': 'interrupted'}, 'action': action, 'options': options},
+                   {'op': 'quiesce'}, {'op': 'snapshot', 'level': 'rows'}, {'op': 'run'}, {'op': 'snapshot', 'level': 'rows'}]
+            rt = rng.choice([{'flavor': 'current'}, {'flavor': 'current'}, {'flavor': 'current', 'chaos': {'max_yields': 2, 'seed': rng.randrange(1, 1 << 40)}}])
+            sc = {'id': '', 'family': 'actions', 'sched': 'b2b-late-branches-' + rt['flavor'], 'seed': rng.randrange(1 << 30), 'runtime': rt, 'engine': {'store': 'mem', 'keep_processes': True},
+                  'models': [json.dumps(wf)], 'responder': {'mode': 'quiescent', 'rules': [{'match': {'uses': IRQ}, 'action': 'next', 'times': 100}]}, 'ops': ops}
+            return {'scenarios': [sc], 'meta': {'wf': wf, 'kind': 'branches', 'sub': 'b2b'}, 'digest': digest([wf, ops]), 'nontrivial': True}
+        n = rng.randint(1, 3)
+        wf = {'id': 'm1', 'steps': [{'id': 's1', 'acts': [irq(f'a{i}', f'k{i}') for i in range(1, n + 1)]}, {'id': 's2', 'acts': [irq('a4', 'k4')]}, {'id': 's3', 'acts': [{'id': 'a5', 'uses': MSG, 'key': 'm5'}]}]}
+        ops = [{'op': 'start', 'mid': 'm1', 'vars': {'pid': 'p1'}}, {'op': 'quiesce'}]
+        pushed = rng.randint(0, 2)
+        for j in range(pushed):
+            ops += [{'op': 'act', 'target': {'pid': 'p1', 'kind': 'step', 'state': 'running', 'occ': 0}, 'action': 'push', 'options': {'uses': IRQ, 'key': f'kpush{j}', 'id': f'apush{j}'}}, {'op': 'quiesce'}]
+        for i in range(1, n):
+            ops += [{'op': 'act', 'target': {'pid': 'p1', 'key': f'k{i}', 'state': 'interrupted'}, 'action': rng.choice(['next', 'next', 'skip', 'submit']), 'options': {}}, {'op': 'quiesce'}]
+        ops.append({'op': 'act', 'target': {'pid': 'p1', 'key': f'k{n}', 'state': 'interrupted'}, 'action': rng.choice(['next', 'next', 'skip', 'submit', 'remove']), 'options': {}})
+        for _ in range(rng.randint(1, 2)):
+            if rng.random() < 0.4:
+                ops.append({'op': 'yield', 'n': rng.randint(1, 6)})
+            action = rng.choice(['skip', 'next', 'remove', 'submit', 'error', 'abort', 'back', 'cancel'])
+            ops.append({'op': 'act', 'target': {'pid': 'p1', 'kind': 'act', 'state': 'interrupted', 'occ': rng.choice([0, -1])}, 'action': action, 'options': options_for(rng, action, wf, 0.9)})
+        ops += [{'op': 'quiesce'}, {'op': 'snapshot', 'level': 'rows'}, {'op': 'run'}, {'op': 'snapshot', 'level': 'rows'}]
+        rt = rng.choice([{'flavor': 'current'}, {'flavor': 'current'}, {'flavor': 'multi', 'workers': 2, 'chaos': {'max_yields': 2, 'seed': rng.randrange(1, 1 << 40)}}])
+        sc = {'id': '', 'family': 'actions', 'sched': 'b2b-tail-' + rt['flavor'], 'seed': rng.randrange(1 << 30), 'runtime': rt, 'engine': {'store': 'mem', 'keep_processes': True},
+              'models': [json.dumps(wf)], 'responder': {'mode': 'quiescent', 'rules': [{'match': {'uses': IRQ}, 'action': 'next', 'times': 100}]}, 'ops': ops}
+        return {'scenarios': [sc], 'meta': {'wf': wf, 'kind': 'linear', 'sub': 'b2b'}, 'digest': digest([wf, ops]), 'nontrivial': True}
 
     def gen_duel(self, rng, idx, opts):
         """different terminal actions racing on acts of sibling branches / the same act (C02/C03 hostile workload)"""
